@@ -1,0 +1,13 @@
+// Copyright (c) HashiCorp, Inc.
+// SPDX-License-Identifier: MPL-2.0
+
+//go:build !verif
+
+// Package verifhook provides named schedule points for verification tooling.
+// Without the "verif" build tag every function in here is an empty, inlinable
+// no-op.
+package verifhook
+
+// Point marks a named position in the code. It does nothing unless built with
+// the "verif" tag.
+func Point(string) {}
